@@ -37,9 +37,12 @@ const (
 	fWrongCode
 	fDenied
 	nFault
+	// fTimeout is outside the enumerated alphabet (every use costs the provider client's 5 s timeout of
+	// real time): the authenticator accepts the connection and does not answer in time
+	fTimeout = nFault
 )
 
-var faultNames = []string{"ok", "429", "503", "401", "500", "502", "504", "conn-drop", "malformed-json", "wrong-success-code", "denied"}
+var faultNames = []string{"ok", "429", "503", "401", "500", "502", "504", "conn-drop", "malformed-json", "wrong-success-code", "denied", "timeout"}
 
 // class of a fault: "ok", "unavailable" (429/503) or "other"
 func class(f int) string {
@@ -171,7 +174,27 @@ func TestProp(t *testing.T) {
 			runHistory(rep, ps, "c05-random", i, r, "mixed", pl)
 		})
 	}
+	if only, skip := env.Only("c05-timeout"); !skip {
+		// a transport-level timeout is "any other failure": no grace, whether or not an outage episode is open
+		nT := env.Pick(24, 120)
+		vh.ForEach(nT, nT, only, func(i int) {
+			r := vh.CaseRNG(env.Seed, "c05-timeout", i)
+			pt := i % 3
+			mk := func(gap time.Duration, fault int) plan {
+				p := plan{gap: gap, target: "/"}
+				p.faults[pt] = fault
+				return p
+			}
+			var pl []plan
+			if i%2 == 1 {
+				pl = append(pl, mk(f(1.1, V), f429)) // open a grace episode first
+			}
+			pl = append(pl, mk(f(1.1, V), fTimeout))
+			runHistory(rep, ps, "c05-timeout", i, r, points[pt], pl)
+		})
+	}
 	if env.Replay == "" {
+		rep.Floor("timeouts_refused_no_grace", 6)
 		rep.Floor("grace_granted_inside_window", 100)
 		rep.Floor("refused_past_grace_deadline", 50)
 		rep.Floor("refused_other_failure_no_grace", 100)
@@ -238,6 +261,12 @@ func answer(point string, fault int, email, newTok string, shortToken bool, hint
 		return sut.Status(502)
 	case f504:
 		return sut.Status(504)
+	case fTimeout:
+		hold := make(chan struct{})
+		time.AfterFunc(6500*time.Millisecond, func() { close(hold) })
+		a := okAns
+		a.Hold = hold
+		return a
 	case fDrop:
 		return sut.Answer{Drop: true}
 	case fMalformed:
@@ -358,9 +387,10 @@ func runHistory(rep *vh.Report, ps *sut.ProxyStack, stream string, idx int, r *r
 			}
 		}
 		refreshCalls := ps.Auth.Calls("refresh", rtok)
-		note("validate", len(ps.Auth.Calls("validate", token)), p.faults[0])
-		note("profile", len(ps.Auth.Calls("profile", token))+len(ps.Auth.Calls("profile", newTok)), p.faults[1])
-		note("refresh", len(refreshCalls), p.faults[2])
+		// calls still open at the authenticator (held past the provider client's timeout) count as asked
+		note("validate", len(ps.Auth.Calls("validate", token))+ps.Auth.Inflight("validate", token), p.faults[0])
+		note("profile", len(ps.Auth.Calls("profile", token))+len(ps.Auth.Calls("profile", newTok))+ps.Auth.Inflight("profile", token)+ps.Auth.Inflight("profile", newTok), p.faults[1])
+		note("refresh", len(refreshCalls)+ps.Auth.Inflight("refresh", rtok), p.faults[2])
 		if len(refreshCalls) > 0 && p.faults[2] == fOK && sawUnavail == "" && sawOther == "" && served {
 			token = newTok
 		}
@@ -380,6 +410,9 @@ func runHistory(rep *vh.Report, ps *sut.ProxyStack, stream string, idx int, r *r
 				rep.Violate(stream, idx, "served-despite-non-429/503-failure at="+sawOther+" site="+site, fmt.Sprintf("authenticator answers %v, request served", callNames), h)
 			} else {
 				rep.Count("refused_other_failure_no_grace", 1)
+				if strings.Contains(strings.Join(callNames, " "), "timeout") {
+					rep.Count("timeouts_refused_no_grace", 1)
+				}
 				if !cleared {
 					rep.Violate(stream, idx, "refused-but-cookie-not-cleared reason=other-failure at="+sawOther, fmt.Sprintf("status %d", rs.Status), h)
 				}
